@@ -5,7 +5,15 @@
    _execute_teardown_sequence}, PhaseExecutor.{execute_phase,
    _execute_phase_once,stop,reset_stop}).
 
-   One group: NMain abortable phases then NTd teardown phases.
+   One group: NSetup setup phases and NMain main phases (all abortable: phases
+   1..NSetup+NMain) then NTd teardown phases.  The group is ENTERED - main and
+   teardown run - iff the setup sequence ended without a terminal result (no
+   setup phase was killed and the abortable-sequence loop did not see the abort
+   flag before starting a setup phase); an abort that arrives after the last
+   setup phase finished leaves the group entered, so its teardown still runs
+   (C03).  PostLoopAbortCheck = TRUE is the variant that looks at the abort flag
+   once more after the setup sequence: TLC then finds an entered group whose
+   teardown never runs.
 
    Executor, per abortable phase:   ea  test _abort (abortable sequence)
                                     ep  test _stopping (execute_phase loop)
@@ -27,14 +35,16 @@
    TLC finds a main phase body starting after abort() returned. *)
 EXTENDS Naturals, Sequences, FiniteSets, TLC
 
-CONSTANTS NMain, NTd, NAborters, ResetInAbort
+CONSTANTS NSetup, NMain, NTd, NAborters, ResetInAbort, PostLoopAbortCheck
 
-Phases == 1..(NMain + NTd)
+NAb == NSetup + NMain
+Phases == 1..(NAb + NTd)
 ExecId == 0
 A1 == 101
 A2 == 102
 Free == 999
-IsTd(p) == p > NMain
+IsTd(p) == p > NAb
+IsSetup(p) == p <= NSetup
 
 (* --algorithm AbortHandshake
 variables abortF = FALSE, fullAbort = FALSE, stopping = FALSE,
@@ -44,7 +54,9 @@ variables abortF = FALSE, fullAbort = FALSE, stopping = FALSE,
           abortsReturned = 0,
           lateStart = FALSE,          \* a non-teardown body started after an abort call had returned
           finalized = FALSE, afterFinal = FALSE, outcome = "none",
-          retBeforeFin = FALSE;       \* an abort call returned before the record was finalized
+          retBeforeFin = FALSE,       \* an abort call returned before the record was finalized
+          okDone = {},                \* phases whose body completed without having been asked to terminate
+          entered = FALSE;            \* the executor decided that setup completed
 
 define
   AtMostOneBody == Cardinality(running) <= 1
@@ -54,7 +66,13 @@ define
   NotAbortedWithoutAbort == (finalized /\ ~abortF) => outcome # "ABORTED"
   TdStarted == {startedSeq[i] : i \in {j \in 1..Len(startedSeq) : IsTd(startedSeq[j])}}
   \* a single abort never prevents a teardown phase of the entered group from running (C03)
-  TeardownAllRun == (finalized /\ ~fullAbort) => TdStarted = {p \in Phases : IsTd(p)}
+  TeardownAllRun == (finalized /\ ~fullAbort /\ entered) => TdStarted = {p \in Phases : IsTd(p)}
+  \* "If all setup nodes complete without a terminal result ... every teardown node is executed", whenever a single abort arrives
+  EnteredMeansTeardown == (finalized /\ ~fullAbort /\ {p \in Phases : IsSetup(p)} \subseteq okDone)
+                             => TdStarted = {p \in Phases : IsTd(p)}
+  \* "If setup does not complete, neither main nor teardown of that group runs"
+  SetupFailedNothingRuns == (finalized /\ ~entered) =>
+                               \A k \in 1..Len(startedSeq) : IsSetup(startedSeq[k])
   NoDoubleStart == \A i, j \in 1..Len(startedSeq) : startedSeq[i] = startedSeq[j] => i = j
 end define;
 
@@ -67,7 +85,7 @@ end macro;
 fair process Exec = ExecId
 variables i = 1, term = FALSE;
 begin
-ea:   while i <= NMain /\ ~term do
+ea:   while i <= NAb /\ ~term do
         if abortF then
           term := TRUE;
         else
@@ -81,17 +99,24 @@ es:         if stopping then
               StartBody(i); ptLock := Free;
 ej:           await i \notin running;
 ec:           cur := 0;
-              if i \in asked then term := TRUE; else i := i + 1; end if;
+              if i \in asked then term := TRUE;
+              else
+                okDone := okDone \cup {i};
+                \* i = NSetup: the setup sequence just ended without a terminal result
+                if i = NSetup /\ PostLoopAbortCheck /\ abortF then term := TRUE; else i := i + 1; end if;
+              end if;
             end if;
           end if;
         end if;
       end while;
+ed:   entered := (i > NSetup);          \* setup returned CONTINUE (main may have been cut short)
+      if ~entered then goto fin; end if;
 tl:   await tdLock = Free; tdLock := ExecId;
       if ~ResetInAbort then stopping := FALSE; end if;
-      i := NMain + 1;
-tf:   while i <= NMain + NTd do
+      i := NAb + 1;
+tf:   while i <= NAb + NTd do
         if fullAbort then
-          i := NMain + NTd + 1;
+          i := NAb + NTd + 1;
         else
 tp:       if stopping then
             i := i + 1;
@@ -139,7 +164,7 @@ end algorithm; *)
 \* BEGIN TRANSLATION
 VARIABLES pc, abortF, fullAbort, stopping, tdLock, ptLock, cur, running, 
           asked, startedSeq, abortsReturned, lateStart, finalized, afterFinal, 
-          outcome, retBeforeFin
+          outcome, retBeforeFin, okDone, entered
 
 (* define statement *)
 AtMostOneBody == Cardinality(running) <= 1
@@ -149,14 +174,21 @@ AbortedWins == (finalized /\ retBeforeFin) => outcome = "ABORTED"
 NotAbortedWithoutAbort == (finalized /\ ~abortF) => outcome # "ABORTED"
 TdStarted == {startedSeq[i] : i \in {j \in 1..Len(startedSeq) : IsTd(startedSeq[j])}}
 
-TeardownAllRun == (finalized /\ ~fullAbort) => TdStarted = {p \in Phases : IsTd(p)}
+TeardownAllRun == (finalized /\ ~fullAbort /\ entered) => TdStarted = {p \in Phases : IsTd(p)}
+
+EnteredMeansTeardown == (finalized /\ ~fullAbort /\ {p \in Phases : IsSetup(p)} \subseteq okDone)
+                           => TdStarted = {p \in Phases : IsTd(p)}
+
+SetupFailedNothingRuns == (finalized /\ ~entered) =>
+                             \A k \in 1..Len(startedSeq) : IsSetup(startedSeq[k])
 NoDoubleStart == \A i, j \in 1..Len(startedSeq) : startedSeq[i] = startedSeq[j] => i = j
 
 VARIABLES i, term, force, t, gotTd
 
 vars == << pc, abortF, fullAbort, stopping, tdLock, ptLock, cur, running, 
            asked, startedSeq, abortsReturned, lateStart, finalized, 
-           afterFinal, outcome, retBeforeFin, i, term, force, t, gotTd >>
+           afterFinal, outcome, retBeforeFin, okDone, entered, i, term, force, 
+           t, gotTd >>
 
 ProcSet == {ExecId} \cup (Phases) \cup ({A1, A2})
 
@@ -176,6 +208,8 @@ Init == (* Global variables *)
         /\ afterFinal = FALSE
         /\ outcome = "none"
         /\ retBeforeFin = FALSE
+        /\ okDone = {}
+        /\ entered = FALSE
         (* Process Exec *)
         /\ i = 1
         /\ term = FALSE
@@ -188,18 +222,18 @@ Init == (* Global variables *)
                                         [] self \in {A1, A2} -> "a0"]
 
 ea == /\ pc[ExecId] = "ea"
-      /\ IF i <= NMain /\ ~term
+      /\ IF i <= NAb /\ ~term
             THEN /\ IF abortF
                        THEN /\ term' = TRUE
                             /\ pc' = [pc EXCEPT ![ExecId] = "ea"]
                        ELSE /\ pc' = [pc EXCEPT ![ExecId] = "ep"]
                             /\ term' = term
-            ELSE /\ pc' = [pc EXCEPT ![ExecId] = "tl"]
+            ELSE /\ pc' = [pc EXCEPT ![ExecId] = "ed"]
                  /\ term' = term
       /\ UNCHANGED << abortF, fullAbort, stopping, tdLock, ptLock, cur, 
                       running, asked, startedSeq, abortsReturned, lateStart, 
-                      finalized, afterFinal, outcome, retBeforeFin, i, force, 
-                      t, gotTd >>
+                      finalized, afterFinal, outcome, retBeforeFin, okDone, 
+                      entered, i, force, t, gotTd >>
 
 ep == /\ pc[ExecId] = "ep"
       /\ IF stopping
@@ -209,8 +243,8 @@ ep == /\ pc[ExecId] = "ep"
                  /\ term' = term
       /\ UNCHANGED << abortF, fullAbort, stopping, tdLock, ptLock, cur, 
                       running, asked, startedSeq, abortsReturned, lateStart, 
-                      finalized, afterFinal, outcome, retBeforeFin, i, force, 
-                      t, gotTd >>
+                      finalized, afterFinal, outcome, retBeforeFin, okDone, 
+                      entered, i, force, t, gotTd >>
 
 el == /\ pc[ExecId] = "el"
       /\ ptLock = Free
@@ -218,8 +252,8 @@ el == /\ pc[ExecId] = "el"
       /\ pc' = [pc EXCEPT ![ExecId] = "es"]
       /\ UNCHANGED << abortF, fullAbort, stopping, tdLock, cur, running, asked, 
                       startedSeq, abortsReturned, lateStart, finalized, 
-                      afterFinal, outcome, retBeforeFin, i, term, force, t, 
-                      gotTd >>
+                      afterFinal, outcome, retBeforeFin, okDone, entered, i, 
+                      term, force, t, gotTd >>
 
 es == /\ pc[ExecId] = "es"
       /\ IF stopping
@@ -243,28 +277,43 @@ es == /\ pc[ExecId] = "es"
                  /\ pc' = [pc EXCEPT ![ExecId] = "ej"]
                  /\ term' = term
       /\ UNCHANGED << abortF, fullAbort, stopping, tdLock, asked, 
-                      abortsReturned, finalized, outcome, retBeforeFin, i, 
-                      force, t, gotTd >>
+                      abortsReturned, finalized, outcome, retBeforeFin, okDone, 
+                      entered, i, force, t, gotTd >>
 
 ej == /\ pc[ExecId] = "ej"
       /\ i \notin running
       /\ pc' = [pc EXCEPT ![ExecId] = "ec"]
       /\ UNCHANGED << abortF, fullAbort, stopping, tdLock, ptLock, cur, 
                       running, asked, startedSeq, abortsReturned, lateStart, 
-                      finalized, afterFinal, outcome, retBeforeFin, i, term, 
-                      force, t, gotTd >>
+                      finalized, afterFinal, outcome, retBeforeFin, okDone, 
+                      entered, i, term, force, t, gotTd >>
 
 ec == /\ pc[ExecId] = "ec"
       /\ cur' = 0
       /\ IF i \in asked
             THEN /\ term' = TRUE
-                 /\ i' = i
-            ELSE /\ i' = i + 1
-                 /\ term' = term
+                 /\ UNCHANGED << okDone, i >>
+            ELSE /\ okDone' = (okDone \cup {i})
+                 /\ IF i = NSetup /\ PostLoopAbortCheck /\ abortF
+                       THEN /\ term' = TRUE
+                            /\ i' = i
+                       ELSE /\ i' = i + 1
+                            /\ term' = term
       /\ pc' = [pc EXCEPT ![ExecId] = "ea"]
       /\ UNCHANGED << abortF, fullAbort, stopping, tdLock, ptLock, running, 
                       asked, startedSeq, abortsReturned, lateStart, finalized, 
-                      afterFinal, outcome, retBeforeFin, force, t, gotTd >>
+                      afterFinal, outcome, retBeforeFin, entered, force, t, 
+                      gotTd >>
+
+ed == /\ pc[ExecId] = "ed"
+      /\ entered' = (i > NSetup)
+      /\ IF ~entered'
+            THEN /\ pc' = [pc EXCEPT ![ExecId] = "fin"]
+            ELSE /\ pc' = [pc EXCEPT ![ExecId] = "tl"]
+      /\ UNCHANGED << abortF, fullAbort, stopping, tdLock, ptLock, cur, 
+                      running, asked, startedSeq, abortsReturned, lateStart, 
+                      finalized, afterFinal, outcome, retBeforeFin, okDone, i, 
+                      term, force, t, gotTd >>
 
 tl == /\ pc[ExecId] = "tl"
       /\ tdLock = Free
@@ -273,16 +322,17 @@ tl == /\ pc[ExecId] = "tl"
             THEN /\ stopping' = FALSE
             ELSE /\ TRUE
                  /\ UNCHANGED stopping
-      /\ i' = NMain + 1
+      /\ i' = NAb + 1
       /\ pc' = [pc EXCEPT ![ExecId] = "tf"]
       /\ UNCHANGED << abortF, fullAbort, ptLock, cur, running, asked, 
                       startedSeq, abortsReturned, lateStart, finalized, 
-                      afterFinal, outcome, retBeforeFin, term, force, t, gotTd >>
+                      afterFinal, outcome, retBeforeFin, okDone, entered, term, 
+                      force, t, gotTd >>
 
 tf == /\ pc[ExecId] = "tf"
-      /\ IF i <= NMain + NTd
+      /\ IF i <= NAb + NTd
             THEN /\ IF fullAbort
-                       THEN /\ i' = NMain + NTd + 1
+                       THEN /\ i' = NAb + NTd + 1
                             /\ pc' = [pc EXCEPT ![ExecId] = "tf"]
                        ELSE /\ pc' = [pc EXCEPT ![ExecId] = "tp"]
                             /\ i' = i
@@ -290,8 +340,8 @@ tf == /\ pc[ExecId] = "tf"
                  /\ i' = i
       /\ UNCHANGED << abortF, fullAbort, stopping, tdLock, ptLock, cur, 
                       running, asked, startedSeq, abortsReturned, lateStart, 
-                      finalized, afterFinal, outcome, retBeforeFin, term, 
-                      force, t, gotTd >>
+                      finalized, afterFinal, outcome, retBeforeFin, okDone, 
+                      entered, term, force, t, gotTd >>
 
 tp == /\ pc[ExecId] = "tp"
       /\ IF stopping
@@ -301,8 +351,8 @@ tp == /\ pc[ExecId] = "tp"
                  /\ i' = i
       /\ UNCHANGED << abortF, fullAbort, stopping, tdLock, ptLock, cur, 
                       running, asked, startedSeq, abortsReturned, lateStart, 
-                      finalized, afterFinal, outcome, retBeforeFin, term, 
-                      force, t, gotTd >>
+                      finalized, afterFinal, outcome, retBeforeFin, okDone, 
+                      entered, term, force, t, gotTd >>
 
 tk == /\ pc[ExecId] = "tk"
       /\ ptLock = Free
@@ -310,8 +360,8 @@ tk == /\ pc[ExecId] = "tk"
       /\ pc' = [pc EXCEPT ![ExecId] = "ts"]
       /\ UNCHANGED << abortF, fullAbort, stopping, tdLock, cur, running, asked, 
                       startedSeq, abortsReturned, lateStart, finalized, 
-                      afterFinal, outcome, retBeforeFin, i, term, force, t, 
-                      gotTd >>
+                      afterFinal, outcome, retBeforeFin, okDone, entered, i, 
+                      term, force, t, gotTd >>
 
 ts == /\ pc[ExecId] = "ts"
       /\ IF stopping
@@ -335,16 +385,16 @@ ts == /\ pc[ExecId] = "ts"
                  /\ pc' = [pc EXCEPT ![ExecId] = "tj"]
                  /\ i' = i
       /\ UNCHANGED << abortF, fullAbort, stopping, tdLock, asked, 
-                      abortsReturned, finalized, outcome, retBeforeFin, term, 
-                      force, t, gotTd >>
+                      abortsReturned, finalized, outcome, retBeforeFin, okDone, 
+                      entered, term, force, t, gotTd >>
 
 tj == /\ pc[ExecId] = "tj"
       /\ i \notin running
       /\ pc' = [pc EXCEPT ![ExecId] = "tc"]
       /\ UNCHANGED << abortF, fullAbort, stopping, tdLock, ptLock, cur, 
                       running, asked, startedSeq, abortsReturned, lateStart, 
-                      finalized, afterFinal, outcome, retBeforeFin, i, term, 
-                      force, t, gotTd >>
+                      finalized, afterFinal, outcome, retBeforeFin, okDone, 
+                      entered, i, term, force, t, gotTd >>
 
 tc == /\ pc[ExecId] = "tc"
       /\ cur' = 0
@@ -352,15 +402,16 @@ tc == /\ pc[ExecId] = "tc"
       /\ pc' = [pc EXCEPT ![ExecId] = "tf"]
       /\ UNCHANGED << abortF, fullAbort, stopping, tdLock, ptLock, running, 
                       asked, startedSeq, abortsReturned, lateStart, finalized, 
-                      afterFinal, outcome, retBeforeFin, term, force, t, gotTd >>
+                      afterFinal, outcome, retBeforeFin, okDone, entered, term, 
+                      force, t, gotTd >>
 
 tu == /\ pc[ExecId] = "tu"
       /\ tdLock' = Free
       /\ pc' = [pc EXCEPT ![ExecId] = "fin"]
       /\ UNCHANGED << abortF, fullAbort, stopping, ptLock, cur, running, asked, 
                       startedSeq, abortsReturned, lateStart, finalized, 
-                      afterFinal, outcome, retBeforeFin, i, term, force, t, 
-                      gotTd >>
+                      afterFinal, outcome, retBeforeFin, okDone, entered, i, 
+                      term, force, t, gotTd >>
 
 fin == /\ pc[ExecId] = "fin"
        /\ finalized' = TRUE
@@ -368,10 +419,11 @@ fin == /\ pc[ExecId] = "fin"
        /\ pc' = [pc EXCEPT ![ExecId] = "Done"]
        /\ UNCHANGED << abortF, fullAbort, stopping, tdLock, ptLock, cur, 
                        running, asked, startedSeq, abortsReturned, lateStart, 
-                       afterFinal, retBeforeFin, i, term, force, t, gotTd >>
+                       afterFinal, retBeforeFin, okDone, entered, i, term, 
+                       force, t, gotTd >>
 
-Exec == ea \/ ep \/ el \/ es \/ ej \/ ec \/ tl \/ tf \/ tp \/ tk \/ ts
-           \/ tj \/ tc \/ tu \/ fin
+Exec == ea \/ ep \/ el \/ es \/ ej \/ ec \/ ed \/ tl \/ tf \/ tp \/ tk
+           \/ ts \/ tj \/ tc \/ tu \/ fin
 
 b0(self) == /\ pc[self] = "b0"
             /\ self \in running
@@ -379,15 +431,16 @@ b0(self) == /\ pc[self] = "b0"
             /\ UNCHANGED << abortF, fullAbort, stopping, tdLock, ptLock, cur, 
                             running, asked, startedSeq, abortsReturned, 
                             lateStart, finalized, afterFinal, outcome, 
-                            retBeforeFin, i, term, force, t, gotTd >>
+                            retBeforeFin, okDone, entered, i, term, force, t, 
+                            gotTd >>
 
 b1(self) == /\ pc[self] = "b1"
             /\ running' = running \ {self}
             /\ pc' = [pc EXCEPT ![self] = "Done"]
             /\ UNCHANGED << abortF, fullAbort, stopping, tdLock, ptLock, cur, 
                             asked, startedSeq, abortsReturned, lateStart, 
-                            finalized, afterFinal, outcome, retBeforeFin, i, 
-                            term, force, t, gotTd >>
+                            finalized, afterFinal, outcome, retBeforeFin, 
+                            okDone, entered, i, term, force, t, gotTd >>
 
 Body(self) == b0(self) \/ b1(self)
 
@@ -397,7 +450,8 @@ a0(self) == /\ pc[self] = "a0"
             /\ UNCHANGED << abortF, fullAbort, stopping, tdLock, ptLock, cur, 
                             running, asked, startedSeq, abortsReturned, 
                             lateStart, finalized, afterFinal, outcome, 
-                            retBeforeFin, i, term, force, t, gotTd >>
+                            retBeforeFin, okDone, entered, i, term, force, t, 
+                            gotTd >>
 
 a1(self) == /\ pc[self] = "a1"
             /\ IF abortF
@@ -409,8 +463,8 @@ a1(self) == /\ pc[self] = "a1"
             /\ pc' = [pc EXCEPT ![self] = "a2"]
             /\ UNCHANGED << stopping, tdLock, ptLock, cur, running, asked, 
                             startedSeq, abortsReturned, lateStart, finalized, 
-                            afterFinal, outcome, retBeforeFin, i, term, t, 
-                            gotTd >>
+                            afterFinal, outcome, retBeforeFin, okDone, entered, 
+                            i, term, t, gotTd >>
 
 a2(self) == /\ pc[self] = "a2"
             /\ IF ~force[self]
@@ -424,16 +478,16 @@ a2(self) == /\ pc[self] = "a2"
                        /\ UNCHANGED << tdLock, gotTd >>
             /\ UNCHANGED << abortF, fullAbort, stopping, ptLock, cur, running, 
                             asked, startedSeq, abortsReturned, lateStart, 
-                            finalized, afterFinal, outcome, retBeforeFin, i, 
-                            term, force, t >>
+                            finalized, afterFinal, outcome, retBeforeFin, 
+                            okDone, entered, i, term, force, t >>
 
 a3(self) == /\ pc[self] = "a3"
             /\ stopping' = TRUE
             /\ pc' = [pc EXCEPT ![self] = "a4"]
             /\ UNCHANGED << abortF, fullAbort, tdLock, ptLock, cur, running, 
                             asked, startedSeq, abortsReturned, lateStart, 
-                            finalized, afterFinal, outcome, retBeforeFin, i, 
-                            term, force, t, gotTd >>
+                            finalized, afterFinal, outcome, retBeforeFin, 
+                            okDone, entered, i, term, force, t, gotTd >>
 
 a4(self) == /\ pc[self] = "a4"
             /\ ptLock = Free
@@ -444,7 +498,8 @@ a4(self) == /\ pc[self] = "a4"
             /\ UNCHANGED << abortF, fullAbort, stopping, tdLock, ptLock, cur, 
                             running, asked, startedSeq, abortsReturned, 
                             lateStart, finalized, afterFinal, outcome, 
-                            retBeforeFin, i, term, force, gotTd >>
+                            retBeforeFin, okDone, entered, i, term, force, 
+                            gotTd >>
 
 a5(self) == /\ pc[self] = "a5"
             /\ IF t[self] \in running
@@ -454,8 +509,8 @@ a5(self) == /\ pc[self] = "a5"
             /\ pc' = [pc EXCEPT ![self] = "a6"]
             /\ UNCHANGED << abortF, fullAbort, stopping, tdLock, ptLock, cur, 
                             running, startedSeq, abortsReturned, lateStart, 
-                            finalized, afterFinal, outcome, retBeforeFin, i, 
-                            term, force, t, gotTd >>
+                            finalized, afterFinal, outcome, retBeforeFin, 
+                            okDone, entered, i, term, force, t, gotTd >>
 
 a6(self) == /\ pc[self] = "a6"
             /\ t[self] \notin running
@@ -463,7 +518,8 @@ a6(self) == /\ pc[self] = "a6"
             /\ UNCHANGED << abortF, fullAbort, stopping, tdLock, ptLock, cur, 
                             running, asked, startedSeq, abortsReturned, 
                             lateStart, finalized, afterFinal, outcome, 
-                            retBeforeFin, i, term, force, t, gotTd >>
+                            retBeforeFin, okDone, entered, i, term, force, t, 
+                            gotTd >>
 
 a7(self) == /\ pc[self] = "a7"
             /\ IF ResetInAbort
@@ -473,8 +529,8 @@ a7(self) == /\ pc[self] = "a7"
             /\ pc' = [pc EXCEPT ![self] = "a8"]
             /\ UNCHANGED << abortF, fullAbort, tdLock, ptLock, cur, running, 
                             asked, startedSeq, abortsReturned, lateStart, 
-                            finalized, afterFinal, outcome, retBeforeFin, i, 
-                            term, force, t, gotTd >>
+                            finalized, afterFinal, outcome, retBeforeFin, 
+                            okDone, entered, i, term, force, t, gotTd >>
 
 a8(self) == /\ pc[self] = "a8"
             /\ IF gotTd[self]
@@ -484,8 +540,8 @@ a8(self) == /\ pc[self] = "a8"
             /\ pc' = [pc EXCEPT ![self] = "aret"]
             /\ UNCHANGED << abortF, fullAbort, stopping, ptLock, cur, running, 
                             asked, startedSeq, abortsReturned, lateStart, 
-                            finalized, afterFinal, outcome, retBeforeFin, i, 
-                            term, force, t, gotTd >>
+                            finalized, afterFinal, outcome, retBeforeFin, 
+                            okDone, entered, i, term, force, t, gotTd >>
 
 aret(self) == /\ pc[self] = "aret"
               /\ abortsReturned' = abortsReturned + 1
@@ -496,7 +552,8 @@ aret(self) == /\ pc[self] = "aret"
               /\ pc' = [pc EXCEPT ![self] = "Done"]
               /\ UNCHANGED << abortF, fullAbort, stopping, tdLock, ptLock, cur, 
                               running, asked, startedSeq, lateStart, finalized, 
-                              afterFinal, outcome, i, term, force, t, gotTd >>
+                              afterFinal, outcome, okDone, entered, i, term, 
+                              force, t, gotTd >>
 
 Aborter(self) == a0(self) \/ a1(self) \/ a2(self) \/ a3(self) \/ a4(self)
                     \/ a5(self) \/ a6(self) \/ a7(self) \/ a8(self)
